@@ -258,7 +258,6 @@ class ExpressionTransformer:
             and len(node.args) == 0
             and len(node.keywords) == 0
             and isinstance(self.nsp, NamespaceFunction)
-            and self.nsp.is_method
             and self.nsp.zero_arg_super_used
         ):
             return node
